@@ -205,15 +205,6 @@ def program_jobs(spec):
         return [f"/sj/0.{i}" for i in range(spec["n"])]
     if k == "twojobs":
         return ["/A/0", "/B/0", "/C/0", "/D/0"]
-    if k == "twobranch":  # two scattered job branches joined by a two-input transformer (no combinator)
-        vals = list(range(spec["n"]))
-        p = wb.inp("a", vals)
-        e, sz = wb.scatter(p)
-        ja = wb.job({"x": e}, op="inc", name="/ba")
-        jb = wb.job({"x": e}, op="copy", name="/bb")
-        m = _merge(wb, {"a": ja, "b": jb}, "sum")
-        wb.out("o", wb.gather(m, sz))
-        return {"o": [2 * v + 1 for v in vals]}
     if k == "fixeddirs":
         return [f"/fx/0.{i}" for i in range(spec["n"])]
     if k == "twobranch":
